@@ -194,12 +194,16 @@ def udpReceive (os : Os) (size : Option Nat) (h : List Call) : Res Bytes × List
 
 /-! ### `TcpSocketImpl` -/
 
+/-- `map_or_else(|| TcpStream::connect(address), |timeout| TcpStream::connect_timeout(address, timeout))` -/
+def connectCall (address : Addr) (c : Option Duration) : Call :=
+  match c with
+  | some d => .connectTimeout address d
+  | none => .connect address
+
 /-- `TcpSocketImpl::new`: `get_connect_or_default(..).map_or_else(|| connect(address), |t| connect_timeout(address, t))` -/
 def tcpNew (os : Os) (address : Addr) (t : Option Timeout) (h : List Call) : Res Unit × List Call :=
   let c := connectOrDefault t
-  let h1 := h ++ [match c with
-    | some d => .connectTimeout address d
-    | none => .connect address]
+  let h1 := h ++ [connectCall address c]
   match os.connect h address c with
   | .error _ => (.err .socketConnect, h1)
   | .ok () => applyTimeout os t h1
@@ -282,6 +286,12 @@ def session (k : Kind) (os : Os) (address : Addr) (t : Option Timeout) (ops : Li
     let (rs, h') := runOps k os address ops h
     (.ok (), rs, h')
   | (e, h) => (e, [], h)
+
+/-- the first call of a socket's life -/
+def openCall (k : Kind) (address : Addr) (t : Option Timeout) : Call :=
+  match k with
+  | .udp => .bindUdp (localFor address)
+  | .tcp => connectCall address (connectOrDefault t)
 
 /-- `Socket::port()` -/
 def sockPort (address : Addr) : Nat := address.port
